@@ -4,10 +4,10 @@ package props
 // link-local with a zone) as the gorilla codec and server.go report them.
 
 import (
-	"net/http"
 	"context"
 	"fmt"
 	"net"
+	"net/http"
 	"strings"
 	"testing"
 	"time"
